@@ -167,8 +167,8 @@ def main(argv=None):
     discharged, open_, violations, known_reported, undecided, bounded = [], [], [], [], [], []
     for full, o in sorted(obligations.items()):
         if not o['open']:
-            if o.get('bounded'):
-                bounded.append({'obligation': full, 'bounded_path_queries': o['bounded'], 'path_queries': o['paths'],
+            if o.get('bounded') or ex.contracts[o['contract']].opts.get('bounded'):
+                bounded.append({'obligation': full, 'bounded_path_queries': o.get('bounded', 0), 'path_queries': o['paths'],
                                 'bound': (ex.contracts[o['contract']].opts.get('bounded')),
                                 'tool': 'z3, pow2/bit_length interpreted, all exponents and widths inside the box'})
             else:
